@@ -13,7 +13,7 @@ TIERS = {'quick': {'runs': 9000, 'budget_s': 45}, 'thorough': {'runs': 600000, '
 RULE = ('one run = one seeded world (layered program over fact/native predicates with cut, ;, ->, \\+, once, call/N, findall, =, \\=, '
         'member/append; query with fresh/shared/pre-bound variables). Per world the fault space is enumerated completely: every '
         'abandonment point k in 0..#answers x {close, drop, throw}, every native invocation j x {raise before first yield, raise on '
-        'resumption}, and abandonment through evaluate_bounded (projection raising at answer k <= 4, own recursion limit of the caller 10 or 30 frames above it, query held or not). A case = one fault placement; non-trivial = at least one registry variable was bound when the fault struck; '
+        'resumption}, and abandonment through evaluate_bounded (projection raising at answer k <= 4, own recursion limit of the caller 10 or 30 frames above it, query held or not); and raw unification generators over the query variables ended at k = 0 (never started) or k = 1 by close / drop / throw / exhaustion. A case = one fault placement; non-trivial = at least one registry variable was bound when the fault struck; '
         'distinct = hash of (rule text, fault kind, stack of live nested queries at the fault)')
 ASSUMPTIONS = [
     'CPython 3.12 refcount finalisation (the statement says "closed or dropped"); cyclic GC is disabled during runs',
@@ -26,7 +26,7 @@ COMPONENTS = {'real': ['yldprolog.compiler pipeline', 'yldprolog.engine (YP subc
                        'generated clause code', 'CPython generators / refcount finalisation'],
               'stub': ['consumer (abandons at every k by close/drop/throw)', 'native predicates (harness generators with raise switches)'],
               'oracle': ['self-referential: registry snapshot equality, nested-query restore on the exhaustion path, re-run equality with the fault-free run']}
-REQUIRED_PROBES = ('fault_bounded_projection_raised', 'fault_close', 'fault_drop', 'fault_throw', 'fault_user_raise_fired', 'abandoned_with_bound_vars',
+REQUIRED_PROBES = ('fault_unify_k0', 'fault_unify_k1', 'fault_bounded_projection_raised', 'fault_close', 'fault_drop', 'fault_throw', 'fault_user_raise_fired', 'abandoned_with_bound_vars',
                    'abandoned_with_2plus_live_queries', 'worlds_with_prebinding')
 
 ANSWER_CAP = 12
@@ -37,7 +37,22 @@ MAX_RAISE_POINTS = 24
 def gen(seed, tier):
     rng = random.Random(seed)
     world = progs.gen_world(rng, rich=rng.random() < 0.8, natives=True, max_depth=rng.choice((1, 2, 3, 3)))
-    return {'world': world, 'faults': 'all'}
+    # raw unification generators over the query variables (and fresh ones): ended before their first answer (k = 0,
+    # never started), after it (k = 1) or by exhaustion, by close / drop / throw
+    pairs = []
+    for _ in range(rng.randrange(1, 4)):
+        t1 = ['v', rng.randrange(4)] if rng.random() < 0.6 else TM.J(_nostr(TM.rnd_term(rng, 4, 2, lists=rng.random() < 0.4)))
+        t2 = TM.J(_nostr(TM.rnd_term(rng, 4, 2, lists=rng.random() < 0.4)))
+        pairs.append([t1, t2] if rng.random() < 0.5 else [t2, t1])
+    return {'world': world, 'faults': 'all', 'unify_pairs': pairs}
+
+
+def _nostr(t):
+    if t[0] == 's':
+        return ('a', 'a')
+    if t[0] == 'f':
+        return ('f', t[1], tuple(_nostr(a) for a in t[2]))
+    return t
 
 
 def sample_view(plan):
@@ -303,6 +318,7 @@ def execute(plan):
             # abandonment through evaluate_bounded (the projection raises at answer k) with the caller's own limit
             # 10 / 30 frames above its depth, i.e. far below the limit requested for the search
             faults += [['bounded', k, (10, 30)[(k + i) % 2], bool((k + i) % 2)] for k in range(min(n, 4) + 1) for i in range(2)]
+            faults += [['unify', pi, k, mode] for pi in range(len(plan.get('unify_pairs', []))) for k in (0, 1) for mode in ('close', 'drop', 'throw', 'resume')]
         else:
             faults = plan['faults']
         for fault in faults:
@@ -316,6 +332,31 @@ def execute(plan):
                     log.key((shape, mode, info.get('live')))
                 if len(info.get('live', ())) >= 3:
                     log.count('abandoned_with_2plus_live_queries')
+            elif fault[0] == 'unify':
+                # a raw unification generator: made, optionally advanced to its answer, then ended
+                from yldprolog.engine import unify as _unify
+                pair = plan['unify_pairs'][fault[1] % len(plan['unify_pairs'])]
+                try:
+                    if TM.munify_any_order_cyclic(TM.T(pair[0]), TM.T(pair[1]), {}):
+                        log.ev('skip-cyclic')
+                        continue
+                except Exception:
+                    continue
+                ut = GenTask(_unify(TM.build(yp, TM.T(pair[0]), qvars), TM.build(yp, TM.T(pair[1]), qvars)))
+                yielded = False
+                if fault[2] >= 1:
+                    yielded = ut.step()
+                info = {'calls': 0, 'fired': 0}
+                if not ut.done:
+                    from ..machine import end_task
+                    outc = end_task(ut, fault[3])
+                    if outc[0] == 'dropped':
+                        info['dead'] = outc[1]
+                ut = None
+                ans, end = [], 'unify-%s-k%d' % (fault[3], fault[2])
+                log.count('fault_unify_k%d' % fault[2])
+                if yielded:
+                    log.key((shape, 'unify', fault[3], fault[2], core.short_hash(pair)))
             elif fault[0] == 'bounded':
                 ans, end, info, holder = run_bounded(sim, yp, name, qargs, ctl, min(fault[1], n), fault[3], fault[2])
                 log.count('fault_bounded')
@@ -361,7 +402,7 @@ def execute(plan):
 
 def narrow(plan, viol):
     f = viol['detail'].get('fault')
-    if f and f[0] in ('abandon', 'raise', 'bounded'):
+    if f and f[0] in ('abandon', 'raise', 'bounded', 'unify'):
         c = dict(plan)
         c['faults'] = [f]
         return c
